@@ -25,8 +25,8 @@ ENGINE_V = ["corebgp runs unmodified inside a testing/synctest bubble on in-memo
 SPECS = {
  "C09": {
   "level": "fault_enumeration",
-  "passes": [fsm("^TestC09$"), real("^TestRealReactions$")],
-  "rule": "[also pass realtcp: the (direction,state,stimulus) table once (quick) / 10x (thorough) on real sockets incl. real FIN] family table: every (direction in/out, state OpenSent/OpenConfirm/Established, stimulus OPEN/UPDATE/KEEPALIVE/FIN/RST) cell, "
+  "passes": [fsm("^TestC09$"), real("^TestRealReactions$"), real("^TestRealReactions$", name="realtcp-legacy-timers", env={"GODEBUG": "asynctimerchan=1"}, thorough_only=True)],
+  "rule": "[thorough also repeats the real reaction table with GODEBUG=asynctimerchan=1] [also pass realtcp: the (direction,state,stimulus) table once (quick) / 10x (thorough) on real sockets incl. real FIN] family table: every (direction in/out, state OpenSent/OpenConfirm/Established, stimulus OPEN/UPDATE/KEEPALIVE/FIN/RST) cell, "
           "each with several seeded stream segmentations and seeded virtual delays at the FSM schedule points; family notif: received "
           "NOTIFICATION (code, subcode, data length) values (quick: every subcode of codes 0-6 plus random pairs; thorough: all 65536 pairs twice) "
           "at a seeded state/direction. A case is non-trivial when the connection reached the target state; distinct = distinct "
@@ -149,8 +149,8 @@ SPECS = {
 
  "C06": {
   "level": "exploration",
-  "passes": [fsm("^TestC06$"), real("^TestRealTimers$")],
-  "rule": "[also pass realtcp: hold-timer lower bound (3 s) and refused-dial pacing (200 ms) in real time] family grid: local hold x remote hold over {0,3,4,9,10,30,90,65535}^2 x remote traffic {silent, KEEPALIVE-only at H-10ms, UPDATE-only at H-10ms, mixed random intervals < H, silent in OpenConfirm} x direction, with local WriteUpdate patterns "
+  "passes": [fsm("^TestC06$"), real("^TestRealTimers$"), real("^TestRealTimers$", name="realtcp-legacy-timers", env={"GODEBUG": "asynctimerchan=1"}, thorough_only=True)],
+  "rule": "[thorough also repeats pass realtcp with GODEBUG=asynctimerchan=1: the pre-Go-1.23 timer channel semantics a user with an old go.mod gets, which the virtual engine cannot run] [also pass realtcp: hold-timer lower bound (3 s) and refused-dial pacing (200 ms) in real time] family grid: local hold x remote hold over {0,3,4,9,10,30,90,65535}^2 x remote traffic {silent, KEEPALIVE-only at H-10ms, UPDATE-only at H-10ms, mixed random intervals < H, silent in OpenConfirm} x direction, with local WriteUpdate patterns "
           "{none, burst, periodic at H/3-10ms} rotated over the cells (640 sessions, enumerated every run); family multi: worlds of 1-3 consecutive sessions on one peer with independently drawn remote hold times/traffic (the outbound FSM object is reused, "
           "so stale timer state of an earlier session is exercised; thorough adds random hold values 3..65535). All oracles are arithmetic on virtual timestamps taken at the remote (send time of its last message, arrival of corebgp's messages): "
           "OPEN hold field = configured; expiry NOTIFICATION(4) never before last-remote-message + min(local,remote) and not later than that + 5 ms; no teardown while the remote sends every H-10ms; gaps between consecutive messages from corebgp <= H/3 + 5 ms; "
@@ -185,8 +185,8 @@ SPECS = {
  "C11": {
   "level": "fault_enumeration",
   "passes": [fsm("^TestC11$")],
-  "rule": "family strings: every fault string of length <= 3 (quick) / <= 4 (thorough) over the 11-symbol alphabet {refuse, stall, close|reset|cease @ OpenSent|OpenConfirm|Established} (exhaustive), each applied to the successive outbound attempts of an active peer "
-          "(or to successive inbound connections of a passive one) with (idle-hold, connect-retry) drawn from {(5s,5s),(1s,30s),(30s,1s),(100ms,100ms)}, followed by a well-behaved remote; family long: random strings of length 4-6; family inbound-end: an inbound Established session of an active peer ends "
+  "rule": "family strings: every fault string of length <= 3 (quick) / <= 5 (thorough) over the 11-symbol alphabet {refuse, stall, close|reset|cease @ OpenSent|OpenConfirm|Established} (exhaustive), each applied to the successive outbound attempts of an active peer "
+          "(or to successive inbound connections of a passive one) with (idle-hold, connect-retry) drawn from {(5s,5s),(1s,30s),(30s,1s),(100ms,100ms)}, followed by a well-behaved remote; family long: random strings of length 4-6 (3000 quick, 120000 thorough); family inbound-end: an inbound Established session of an active peer ends "
           "by close/reset/Cease; family realdial: real refused loopback dials inside the bubble observed through WithDialerControl. Oracle on the dial log (virtual timestamps from the dial hook / DialerControl): refused attempt followed by the next after idle-hold (never earlier than idle-hold-5ms, never later than idle-hold+connect-retry), "
           "stalled attempt cancelled and replaced within connect-retry, new attempt within idle-hold+connect-retry after any other fault, Established within idle-hold+connect-retry+1s of the last fault (liveness restated as bounded progress), passive peers never dial, dialling resumes <= 5 ms after an inbound session ends and a new inbound connection is served.",
   "exhaustive_note": "all fault strings up to the stated length are enumerated on every run",
@@ -218,8 +218,8 @@ SPECS = {
 
  "C01": {
   "level": "exploration",
-  "passes": [fsm("^TestC01$"), real("^TestReal(Sessions|Readd)$")],
-  "rule": "[also pass realtcp: real loopback sessions in both directions with 1-byte writes, 4 concurrent writers, Close; and DeletePeer still tearing down a session (busy handler) while AddPeer re-adds the address and the remote reconnects: never two sessions at once] one case = one seeded adversarial world: 1-3 peers (passive/active, hold 0/3/9/90, idle-hold 1ms..5s, local or remote dominant), outbound dials refused/stalled/accepted (with latency), inbound connections arriving concurrently (some with 1-5 byte reads or injected read/write errors), "
+  "passes": [fsm("^TestC01$"), real("^TestReal(Sessions|Readd)$"), real("^TestRealSessions$", name="realtcp-legacy-timers", env={"GODEBUG": "asynctimerchan=1"}, thorough_only=True)],
+  "rule": "[thorough also repeats the real sessions with GODEBUG=asynctimerchan=1] [also pass realtcp: real loopback sessions in both directions with 1-byte writes, 4 concurrent writers, Close; and DeletePeer still tearing down a session (busy handler) while AddPeer re-adds the address and the remote reconnects: never two sessions at once] one case = one seeded adversarial world: 1-3 peers (passive/active, hold 0/3/9/90, idle-hold 1ms..5s, local or remote dominant), outbound dials refused/stalled/accepted (with latency), inbound connections arriving concurrently (some with 1-5 byte reads or injected read/write errors), "
           "every connection driven by a random remote script over {valid OPEN, invalid OPEN, KEEPALIVE, UPDATE(conn,idx), Cease, other NOTIFICATION, garbage, half message, close, RST, pauses from 0 to 10 virtual seconds}, 60% of them completing a handshake first; meanwhile AddPeer/DeletePeer and finally Close. "
           "Even cases: seeded virtual delays at all schedule points, registry calls by the director only; odd cases: runtime.Gosched bursts at schedule points, one concurrent API actor per peer plus ungated arrivals. "
           "Oracle: online plugin automaton per peer (alternation, no overlap, handler only between OnEstablished return and OnClose, exactly one OnClose by Close/DeletePeer return, nothing afterwards) + offline join: every OPEN on the wire carries a nonce issued by exactly one earlier GetCapabilities call of that peer, "
